@@ -3,7 +3,8 @@
 From Coq Require Import List NArith ZArith Bool.
 Import ListNotations.
 Require Import Verif.Lib.Wire Verif.Lib.Text Verif.Lib.Utf8 Verif.Lib.Percent
-               Verif.Gen.Facts_C17 Verif.Model.C17 Verif.Gen.Code_C17 Verif.Proofs.C17 Verif.Proofs.C17_gen.
+               Verif.Gen.Facts_C17 Verif.Model.C17 Verif.Model.C17_glue Verif.Gen.Code_C17 Verif.Proofs.C17 Verif.Proofs.C17_gen
+               Verif.Proofs.C17_gen2 Verif.Proofs.C17_total.
 Open Scope N_scope.
 
 (* extra path elements: split the produced suffix on '/', percent-decode, UTF-8 decode:
@@ -369,3 +370,120 @@ Theorem C17_external_route_path_refused : forall c e xs rs n els o kw x p,
   assoc n xs = Some x -> assoc n rs <> None -> route_path_x c e xs rs n els o kw = Ok p -> False.
 Proof. exact external_route_path_refused. Qed.
 Print Assumptions C17_external_route_path_refused.
+
+(* ================= round 5 ================= *)
+(* the helpers themselves, regenerated from the source on this run, equal the reference model *)
+Theorem C17_gen_route_url_is_model : forall c e xs rs n els o kw,
+  gen_route_url c e xs rs n els o kw = route_url_x c e xs rs n els o kw.
+Proof. exact gen_route_url_is_model. Qed.
+Print Assumptions C17_gen_route_url_is_model.
+
+Theorem C17_gen_current_route_url_is_model : forall c e xs rs rname matched md gt els o kw,
+  gen_current_route_url c e xs rs rname matched md gt els o kw = current_route_url_x c e xs rs rname matched md gt els o kw.
+Proof. exact gen_current_route_url_is_model. Qed.
+Print Assumptions C17_gen_current_route_url_is_model.
+
+Theorem C17_gen_static_url_is_model : forall e rs regs path o kw,
+  gen_static_url e rs regs path o kw = static_url_x e rs regs path o kw.
+Proof. exact gen_static_url_is_model. Qed.
+Print Assumptions C17_gen_static_url_is_model.
+
+(* the function forms of pyramid.url delegate to the request method of the same name *)
+Theorem C17_gen_fn_forms_are_model :
+  (forall c e xs rs n els o kw, gen_fn_route_url c e xs rs n els o kw = route_url_x c e xs rs n els o kw)
+  /\ (forall c e xs rs n els o kw, gen_fn_route_path c e xs rs n els o kw = route_path_x c e xs rs n els o kw)
+  /\ (forall c e rs names els o vroot rn, gen_fn_resource_url c e rs names els o vroot rn = resource_url_x c e rs names els o vroot rn)
+  /\ (forall e rs regs path o kw, gen_fn_static_url e rs regs path o kw = static_url_x e rs regs path o kw)
+  /\ (forall e rs regs path o kw, gen_fn_static_path e rs regs path o kw = static_path_x e rs regs path o kw)
+  /\ (forall c e xs rs rname matched md gt els o kw,
+        gen_fn_current_route_url c e xs rs rname matched md gt els o kw = current_route_url_x c e xs rs rname matched md gt els o kw)
+  /\ (forall c e xs rs rname matched md gt els o kw,
+        gen_fn_current_route_path c e xs rs rname matched md gt els o kw = current_route_path_x c e xs rs rname matched md gt els o kw).
+Proof. exact gen_fn_forms_are_model. Qed.
+Print Assumptions C17_gen_fn_forms_are_model.
+
+(* the pregenerator closure add_route installs for a route whose pattern is a full URL, regenerated *)
+Theorem C17_gen_ext_pregen_is_model : forall e els o x, c17_ext_wf x -> gen_ext_pregen e els o x = c17_ext_pregen e o x.
+Proof. exact gen_ext_pregen_is_model. Qed.
+Print Assumptions C17_gen_ext_pregen_is_model.
+
+(* scheme of an external route's URL: _scheme, else the pattern's, else the request's; then "://" and the pattern's netloc;
+   an _app_url of the caller is refused; nothing else in the keyword dictionary changes *)
+Theorem C17_gen_ext_pregen_scheme_precedence : forall e els o x o',
+  c17_ext_wf x -> gen_ext_pregen e els o x = Ok o' ->
+  o_app_url o = None
+  /\ o_app_url o' = Some ((match o_scheme o with
+                           | Some s => s
+                           | None => match fst x with Some s => s | None => e_scheme e end
+                           end) ++ [58; 47; 47] ++ snd x)
+  /\ o_scheme o' = o_scheme o /\ o_host o' = o_host o /\ o_port o' = o_port o
+  /\ o_query o' = o_query o /\ o_anchor o' = o_anchor o.
+Proof. exact gen_ext_pregen_scheme_precedence. Qed.
+Print Assumptions C17_gen_ext_pregen_scheme_precedence.
+
+Theorem C17_gen_route_url_external : forall c e xs rs n els o kw x u,
+  assoc n xs = Some x -> gen_route_url c e xs rs n els o kw = Ok u ->
+  o_app_url o = None /\ exists rest, u = ext_app_url e o x ++ rest.
+Proof. exact gen_route_url_external. Qed.
+Print Assumptions C17_gen_route_url_external.
+
+(* the whole-URL theorem, about route_url as regenerated (ordinary routes) *)
+Theorem C17_gen_route_url_decodes : forall c e xs rs n els o kw u,
+  assoc n xs = None ->
+  wf_query (o_query o) -> wf_anchor (o_anchor o) ->
+  join_elements_c c els = join_elements els ->
+  gen_route_url c e xs rs n els o kw = Ok u ->
+  exists app path sfx qt f,
+    parse_app e o = Ok app
+    /\ Forall pc (path ++ sfx) /\ Forall qc qt /\ Forall qc f
+    /\ (~ In 35 app -> ~ In 63 app -> cut_ref u = (app ++ path ++ sfx, qt, f))
+    /\ query_decodes (o_query o) qt
+    /\ (forall t, spec_anchor (o_anchor o) = Some t -> unquote_text f = Some t)
+    /\ (els <> [] -> exists s ts, (sfx = s \/ sfx = 47 :: s)
+                                  /\ spec_elements els = Some ts /\ decode_segments s = Some ts).
+Proof. exact gen_route_url_decodes. Qed.
+Print Assumptions C17_gen_route_url_decodes.
+
+Theorem C17_gen_route_url_pct : forall c e xs rs n els o kw u,
+  assoc n xs = None ->
+  wf_query (o_query o) -> wf_anchor (o_anchor o) ->
+  join_elements_c c els = join_elements els ->
+  gen_route_url c e xs rs n els o kw = Ok u ->
+  exists app rest, parse_app e o = Ok app /\ u = app ++ rest /\ pct_ok rest = true.
+Proof. exact gen_route_url_pct. Qed.
+Print Assumptions C17_gen_route_url_pct.
+
+(* totality: when the spec says a URL is due, one is produced (and the path form with it) *)
+Theorem C17_route_url_total : forall c e rs n els o kw,
+  must_route e rs n els o kw = true -> exists u, route_url c e rs n els o kw = Ok u.
+Proof. exact route_url_total. Qed.
+Print Assumptions C17_route_url_total.
+
+Theorem C17_gen_route_url_total : forall c e xs rs n els o kw,
+  assoc n xs = None -> must_route e rs n els o kw = true -> exists u, gen_route_url c e xs rs n els o kw = Ok u.
+Proof. exact gen_route_url_total. Qed.
+Print Assumptions C17_gen_route_url_total.
+
+Theorem C17_route_path_total : forall c e rs n els o kw,
+  o_app_url o = None -> must_route e rs n els o kw = true ->
+  exists u p, route_url c e rs n els o kw = Ok u /\ route_path c e rs n els o kw = Ok p /\ u = host_part e o ++ p.
+Proof. exact route_path_total. Qed.
+Print Assumptions C17_route_path_total.
+
+Theorem C17_resource_url_x_total : forall c e rs names els o vroot,
+  must_resource e rs names els o vroot None = true -> exists u, resource_url_x c e rs names els o vroot None = Ok u.
+Proof. exact resource_url_x_total. Qed.
+Print Assumptions C17_resource_url_x_total.
+
+Theorem C17_static_url_x_total : forall e rs regs path o kw sub s rname,
+  find_reg_x regs path = Some (sub, RRoute s rname) ->
+  must_static e rs regs path o kw = true -> exists u, static_url_x e rs regs path o kw = Ok u.
+Proof. exact static_url_x_total. Qed.
+Print Assumptions C17_static_url_x_total.
+
+Theorem C17_current_route_url_total : forall c e rs rname matched md gt els o kw n,
+  (match rname with Some x => Some x | None => matched end) = Some n ->
+  must_route e rs n els (match o_query o with Some _ => o | None => set_query o (QPairs gt) end) (dupdate md kw) = true ->
+  exists u, current_route_url c e rs rname matched md gt els o kw = Ok u.
+Proof. exact current_route_url_total. Qed.
+Print Assumptions C17_current_route_url_total.
